@@ -28,7 +28,7 @@ use crate::resources::{TextResource, TextResourceHandle};
 use crate::selector::{Selector, SelectorKind};
 use crate::substore::AnnotationSubStore;
 use crate::textselection::{
-    ResultTextSelection, ResultTextSelectionSet, TextSelectionOperator, TextSelectionSet,
+    ResultTextSelection, ResultTextSelectionSet, TextSelectionOperator,
 };
 use crate::{Filter, FilterMode, TextMode};
 
@@ -259,8 +259,9 @@ impl<'store> ResultItem<'store, Annotation> {
         operator: TextSelectionOperator,
     ) -> impl Iterator<Item = ResultTextSelection<'store>> {
         //first we gather all textselections for this annotation in a set, as the chosen operator may apply to them jointly
-        let tset: TextSelectionSet = self.textselections().collect();
-        tset.as_resultset(self.store()).related_text(operator)
+        //(one set per resource: offsets and handles of different resources are not comparable)
+        self.textselectionsets()
+            .flat_map(move |tset| tset.related_text(operator))
     }
 
     /// Returns the text this resources references as a single text selection set.
